@@ -50,59 +50,61 @@ var kindNames = [...]string{"none", "start", "go", "lock", "unlock", "rlock", "r
 func (k Kind) String() string { return kindNames[k] }
 
 // Obj is the scheduler-visible state of a synchronisation object. The shims
-// embed or own one; only scheduler code reads and writes it.
+// own one each; only scheduler-side (//go:norace) code reads and writes it.
 type Obj struct {
 	Locked  bool // mutex write-locked
 	Readers int  // rwmutex readers
 	Count   int  // waitgroup counter / channel length / pipe bytes available
 	Cap     int  // channel capacity
 	Closed  bool // channel or pipe closed
-	Dead    bool // pipe: deadline expired
+	Dead    bool // pipe: read deadline expired
 }
 
 const (
 	maxThreads = 16
 	maxPoints  = 20000
 	maxTimers  = 16
+	maxSteps   = 200000
 )
 
 type thread struct {
-	used     bool
-	done     bool
-	started  bool
-	kind     Kind // pending operation
-	obj      *Obj
-	wake     int64 // KSleep: virtual wake-up time
-	fn       func()
+	used bool
+	done bool
+	kind Kind // pending operation
+	obj  *Obj
+	wake int64 // KSleep: virtual wake-up time
 }
 
 type timer struct {
 	used   bool
 	when   int64
 	period int64
-	fire   func() // executed by the scheduler (norace caller)
+	fire   func() bool // run by the scheduler at quiescence; reports whether it changed anything
 }
 
 // PointInfo describes one recorded choice point of an execution.
 type PointInfo struct {
-	Kind           Kind // kind of the operation the deciding thread was about to do
+	Kind           Kind // operation the deciding thread was about to perform
 	Thread         int  // thread that was running when the choice arose
 	N              int  // number of alternatives
 	Chosen         int
-	RunningEnabled bool // alternative 0 is "keep running the same thread"
+	RunningEnabled bool // alternative 0 means "the same thread keeps running"
 	Env            bool // environment choice (Choose), not a thread switch
 }
 
 // Result of one execution.
 type Result struct {
-	Points    []PointInfo
-	Steps     int // all scheduling points incl. forced ones
-	Deadlock  bool
-	Horizon   bool
-	Diverged  bool   // the prefix could not be replayed (choice out of range)
-	DeadInfo  string // threads and their pending operations at deadlock
-	Threads   int
-	VirtualNs int64
+	Points      []PointInfo
+	Steps       int // all scheduling points incl. forced ones
+	Deadlock    bool
+	Horizon     bool
+	Diverged    bool   // the prefix could not be replayed (choice out of range)
+	DeadInfo    string // threads and their pending operations at deadlock
+	Threads     int
+	VirtualNs   int64
+	Panic       string // a managed thread panicked
+	PanicThread int
+	Stragglers  int // threads that could not be unwound (process must be recycled)
 }
 
 type exec struct {
@@ -111,6 +113,7 @@ type exec struct {
 	running  int
 	turn     int // plain word the threads spin on
 	aborting bool
+	finished bool
 	live     int
 	prefix   []int
 	pos      int
@@ -123,20 +126,16 @@ type exec struct {
 	deadInfo string
 	now      int64
 	timers   [maxTimers]timer
-	finished bool
+	panicMsg string
+	panicThr int
 }
 
 var cur *exec
 
-// Active reports whether a managed execution is in progress.
+// Active reports whether a managed execution is in progress (and not being torn down).
 //
 //go:norace
 func Active() bool { return cur != nil && !cur.aborting }
-
-// Aborting reports that the execution is being torn down: shims must not block.
-//
-//go:norace
-func Aborting() bool { return cur != nil && cur.aborting }
 
 //go:norace
 func enabled(t *thread, now int64) bool {
@@ -163,9 +162,11 @@ func enabled(t *thread, now int64) bool {
 	return true
 }
 
+// park spins until thread id is given the turn; on abort the goroutine exits.
+//
 //go:norace
-func (e *exec) spinUntilTurn(id int) {
-	for e.turn != id {
+func (e *exec) park(id int) {
+	for e.turn != id || e.aborting {
 		if e.aborting {
 			e.live--
 			runtime.Goexit()
@@ -174,22 +175,30 @@ func (e *exec) spinUntilTurn(id int) {
 	}
 }
 
-// schedule is called by the running thread me (already carrying its pending
-// operation). It picks the next thread and, if it is another one, hands over
-// and waits for the turn to come back.
+// abort tears the execution down from inside a managed thread.
 //
 //go:norace
-func (e *exec) schedule(me int) {
-	e.steps++
-	if e.steps > maxPoints*4 {
-		e.horizon = true
-		e.abortFrom(me)
-		return
-	}
+func (e *exec) abort() {
+	e.aborting = true
+	e.live--
+	runtime.Goexit()
+}
+
+// pick chooses the next thread to run. me is the deciding thread (whose pending
+// operation is already recorded), or -1 when the deciding thread has just exited.
+// It returns the chosen thread id, or -1 when the execution must abort.
+//
+//go:norace
+func (e *exec) pick(me int, kind Kind) int {
 	for {
+		e.steps++
+		if e.steps > maxSteps {
+			e.horizon = true
+			return -1
+		}
 		var cand [maxThreads]int
 		n := 0
-		selfEnabled := enabled(&e.threads[me], e.now)
+		selfEnabled := me >= 0 && enabled(&e.threads[me], e.now)
 		if selfEnabled {
 			cand[0] = me
 			n = 1
@@ -206,8 +215,7 @@ func (e *exec) schedule(me int) {
 			}
 			e.deadlock = true
 			e.describeDeadlock()
-			e.abortFrom(me)
-			return
+			return -1
 		}
 		choice := 0
 		if n > 1 {
@@ -215,45 +223,24 @@ func (e *exec) schedule(me int) {
 				choice = e.prefix[e.pos]
 				if choice < 0 || choice >= n {
 					e.diverged = true
-					e.abortFrom(me)
-					return
+					return -1
 				}
 			}
 			e.pos++
 			if e.npoints >= maxPoints {
 				e.horizon = true
-				e.abortFrom(me)
-				return
+				return -1
 			}
-			e.points[e.npoints] = PointInfo{Kind: e.threads[me].kind, Thread: me, N: n, Chosen: choice, RunningEnabled: selfEnabled}
+			who := me
+			if who < 0 {
+				who = e.running
+			}
+			e.points[e.npoints] = PointInfo{Kind: kind, Thread: who, N: n, Chosen: choice, RunningEnabled: selfEnabled}
 			e.npoints++
 		}
-		next := cand[choice]
-		if next == me {
-			return
-		}
-		e.running = next
-		e.turn = next
-		e.spinUntilTurn(me)
-		return
+		return cand[choice]
 	}
 }
-
-// abortFrom tears the execution down from inside thread me.
-//
-//go:norace
-func (e *exec) abortFrom(me int) {
-	e.aborting = true
-	if me != 0 {
-		// let the main thread (thread 0) observe the abort; this goroutine exits
-		e.live--
-		runtime.Goexit()
-	}
-	// thread 0: unwind its own body too
-	panic(abortPanic{})
-}
-
-type abortPanic struct{}
 
 //go:norace
 func (e *exec) describeDeadlock() {
@@ -279,8 +266,9 @@ func itoa(i int) string {
 	return s
 }
 
-// advanceTime fires the earliest timer / wakes the earliest sleeper. It reports
-// whether virtual time moved (so that enabledness must be re-evaluated).
+// advanceTime wakes the earliest sleeper / fires the earliest timer. It reports
+// whether something changed (so that enabledness must be re-evaluated). Time
+// only moves when no thread can run: timers fire at quiescence.
 //
 //go:norace
 func (e *exec) advanceTime() bool {
@@ -306,15 +294,26 @@ func (e *exec) advanceTime() bool {
 	}
 	if ti >= 0 {
 		tm := &e.timers[ti]
+		f := tm.fire
 		if tm.period > 0 {
 			tm.when += tm.period
 		} else {
 			tm.used = false
 		}
-		tm.fire()
-		// a periodic timer that wakes nobody must not spin forever
-		e.steps++
-		if e.steps > maxPoints*4 {
+		if !f() {
+			// a tick nobody can observe (channel already full): if nothing else is
+			// pending in time, the system is stuck for good
+			for i := 0; i < e.nthreads; i++ {
+				t := &e.threads[i]
+				if t.used && !t.done && t.kind == KSleep {
+					return true
+				}
+			}
+			for i := range e.timers {
+				if i != ti && e.timers[i].used {
+					return true
+				}
+			}
 			return false
 		}
 	}
@@ -323,21 +322,26 @@ func (e *exec) advanceTime() bool {
 
 // Point announces that the running thread is about to perform an operation of
 // the given kind on obj and lets the schedule decide who runs next. When it
-// returns the operation is enabled and the caller holds the turn.
+// returns, the operation is enabled and the caller holds the turn.
 //
 //go:norace
 func Point(kind Kind, obj *Obj) {
 	e := cur
-	if e == nil {
-		return
-	}
-	if e.aborting {
+	if e == nil || e.aborting {
 		return
 	}
 	me := e.running
 	t := &e.threads[me]
 	t.kind, t.obj = kind, obj
-	e.schedule(me)
+	next := e.pick(me, kind)
+	if next < 0 {
+		e.abort()
+	}
+	if next != me {
+		e.running = next
+		e.turn = next
+		e.park(me)
+	}
 	t.kind, t.obj = KNone, nil
 }
 
@@ -352,7 +356,15 @@ func SleepUntil(wake int64) {
 	me := e.running
 	t := &e.threads[me]
 	t.kind, t.obj, t.wake = KSleep, nil, wake
-	e.schedule(me)
+	next := e.pick(me, KSleep)
+	if next < 0 {
+		e.abort()
+	}
+	if next != me {
+		e.running = next
+		e.turn = next
+		e.park(me)
+	}
 	t.kind = KNone
 }
 
@@ -367,10 +379,10 @@ func Now() int64 {
 }
 
 // AddTimer registers a (periodic if period>0) timer whose fire function is run
-// by the scheduler when virtual time reaches it. It returns a handle for StopTimer.
+// by the scheduler when virtual time reaches it. The handle is for StopTimer.
 //
 //go:norace
-func AddTimer(delay, period int64, fire func()) int {
+func AddTimer(delay, period int64, fire func() bool) int {
 	e := cur
 	if e == nil {
 		return -1
@@ -404,15 +416,13 @@ func Choose(n int) int {
 		choice = e.prefix[e.pos]
 		if choice < 0 || choice >= n {
 			e.diverged = true
-			e.abortFrom(e.running)
-			return 0
+			e.abort()
 		}
 	}
 	e.pos++
 	if e.npoints >= maxPoints {
 		e.horizon = true
-		e.abortFrom(e.running)
-		return 0
+		e.abort()
 	}
 	e.points[e.npoints] = PointInfo{Kind: KEnv, Thread: e.running, N: n, Chosen: choice, Env: true}
 	e.npoints++
@@ -420,14 +430,16 @@ func Choose(n int) int {
 }
 
 // Go starts f as a new managed thread. The spawn is itself a scheduling point.
+// Outside a managed execution it is a plain go statement.
 //
 //go:norace
 func Go(f func()) {
 	e := cur
-	if e == nil || e.aborting {
-		if e == nil {
-			go f()
-		}
+	if e == nil {
+		go f()
+		return
+	}
+	if e.aborting {
 		return
 	}
 	if e.nthreads >= maxThreads {
@@ -443,9 +455,8 @@ func Go(f func()) {
 
 //go:norace
 func threadMain(e *exec, id int, f func()) {
-	e.spinUntilTurn(id)
+	e.park(id)
 	e.threads[id].kind = KNone
-	e.threads[id].started = true
 	defer threadExit(e, id)
 	f()
 }
@@ -453,12 +464,9 @@ func threadMain(e *exec, id int, f func()) {
 //go:norace
 func threadExit(e *exec, id int) {
 	if r := recover(); r != nil {
-		if _, ok := r.(abortPanic); !ok {
-			// a real panic in a managed thread: surface it through thread 0
-			e.panicVal = r
-			e.panicThread = id
-			e.aborting = true
-		}
+		e.panicMsg = panicString(r)
+		e.panicThr = id
+		e.aborting = true
 	}
 	if e.aborting {
 		e.live--
@@ -467,117 +475,68 @@ func threadExit(e *exec, id int) {
 	t := &e.threads[id]
 	t.done = true
 	t.kind = KExit
-	e.live--
-	// hand the turn to somebody else; this goroutine ends
-	e.pickAfterExit(id)
-}
-
-// pickAfterExit chooses the next thread after thread id finished.
-//
-//go:norace
-func (e *exec) pickAfterExit(id int) {
-	for {
-		var cand [maxThreads]int
-		n := 0
-		for i := 0; i < e.nthreads; i++ {
-			if i != id && enabled(&e.threads[i], e.now) {
-				cand[n] = i
-				n++
-			}
-		}
-		if n == 0 {
-			if e.advanceTime() {
-				continue
-			}
-			// nobody can run: if thread 0 is still alive this is a deadlock it must learn about
-			e.deadlock = true
-			e.describeDeadlock()
-			e.aborting = true
-			return
-		}
-		choice := 0
-		if n > 1 {
-			if e.pos < len(e.prefix) {
-				choice = e.prefix[e.pos]
-				if choice < 0 || choice >= n {
-					e.diverged = true
-					e.aborting = true
-					return
-				}
-			}
-			e.pos++
-			if e.npoints >= maxPoints {
-				e.horizon = true
-				e.aborting = true
-				return
-			}
-			e.points[e.npoints] = PointInfo{Kind: KExit, Thread: id, N: n, Chosen: choice}
-			e.npoints++
-		}
-		e.running = cand[choice]
-		e.turn = cand[choice]
+	if id == 0 {
+		// the body returned: the execution is complete, unwind whoever is left
+		e.finished = true
+		e.aborting = true
+		e.live--
 		return
 	}
+	next := e.pick(-1, KExit)
+	e.live--
+	if next < 0 {
+		e.aborting = true
+		return
+	}
+	e.running = next
+	e.turn = next
+}
+
+func panicString(r any) string {
+	switch v := r.(type) {
+	case string:
+		return v
+	case error:
+		return v.Error()
+	case interface{ String() string }:
+		return v.String()
+	}
+	return "panic (non-string value)"
 }
 
 // Run executes body as thread 0 under the given choice prefix (choice 0 after
 // the prefix is exhausted) and returns what happened. Executions are strictly
-// sequential within a process.
-func Run(prefix []int, body func()) (res Result, panicVal any, panicThread int) {
-	e := &exec{prefix: prefix}
-	e.threads[0] = thread{used: true, started: true}
-	e.nthreads = 1
-	e.live = 1
-	e.panicThread = -1
-	cur = e
-	runMain(e, body)
-	// tear down: wake every parked thread so that it exits
-	finish(e)
-	cur = nil
-	res = Result{Steps: e.steps, Deadlock: e.deadlock, Horizon: e.horizon, Diverged: e.diverged, DeadInfo: e.deadInfo, Threads: e.nthreads, VirtualNs: e.now}
-	res.Points = append(res.Points, e.points[:e.npoints]...)
-	return res, e.panicVal, e.panicThread
-}
-
-//go:norace
-func runMain(e *exec, body func()) {
-	defer func() {
-		if r := recover(); r != nil {
-			if _, ok := r.(abortPanic); !ok {
-				e.panicVal = r
-				e.panicThread = 0
-			}
-		}
-		e.threads[0].done = true
-	}()
-	body()
-	// body returned normally: thread 0 is done; let remaining threads be unwound by finish
-	// (the harness decides whether unfinished threads are a violation by joining them in body)
-	if e.aborting {
-		// another thread aborted while we were running to completion
-	}
-}
-
-// mainWait parks thread 0 until the turn comes back or the execution aborts
-// (used when thread 0 is blocked in a Point: handled by spinUntilTurn, which
-// for thread 0 must panic instead of Goexit).
+// sequential within a process; the caller's goroutine is the controller.
 //
 //go:norace
-func finish(e *exec) {
-	e.aborting = true
-	e.live-- // thread 0
-	deadline := time.Now().Add(5 * time.Second)
+func Run(prefix []int, body func()) Result {
+	e := &exec{prefix: prefix, panicThr: -1}
+	e.threads[0] = thread{used: true, kind: KStart}
+	e.nthreads = 1
+	e.live = 1
+	e.turn = 0
+	e.running = 0
+	cur = e
+	go threadMain(e, 0, body)
+	// controller: wait until every managed goroutine has gone
+	deadline := time.Time{}
+	stragglers := 0
 	for e.live > 0 {
 		runtime.Gosched()
-		if time.Now().After(deadline) {
-			e.stragglers = e.live
-			break
+		if e.aborting {
+			if deadline.IsZero() {
+				deadline = time.Now().Add(10 * time.Second)
+			} else if time.Now().After(deadline) {
+				stragglers = e.live
+				break
+			}
 		}
 	}
+	releaseHeld()
+	resetChans()
+	cur = nil
+	res := Result{Steps: e.steps, Deadlock: e.deadlock, Horizon: e.horizon, Diverged: e.diverged, DeadInfo: e.deadInfo,
+		Threads: e.nthreads, VirtualNs: e.now, Panic: e.panicMsg, PanicThread: e.panicThr, Stragglers: stragglers}
+	res.Points = append(res.Points, e.points[:e.npoints]...)
+	return res
 }
-
-// Stragglers reports threads that did not unwind after the last execution
-// (blocked in an un-hooked operation): the process must then be recycled.
-func Stragglers() int { return lastStragglers }
-
-var lastStragglers int
